@@ -269,7 +269,10 @@ def run(tier: str, replay=None) -> int:
                        "coordinates = grid position / 2 (exact in binary floating point)"]
     if replay:
         r = replay["replay"]
-        if r["engine"] == "c08-unit":
+        if r["engine"] == "reduce-trace":
+            from . import reduce_trace
+            reduce_trace.replay(chk, r)
+        elif r["engine"] == "c08-unit":
             unit_checks(chk, [r["case"]], "replay")
         elif r["engine"] == "c08-precedence":
             weight_precedence(chk)
@@ -297,4 +300,6 @@ def run(tier: str, replay=None) -> int:
         e2e(chk, cases, rng, ne2e)
         chk.sample(cases[len(cases) // 3])
     weight_precedence(chk)
+    from . import reduce_trace
+    reduce_trace.run(chk, tier)       # code -> spec: recorded reductions of real matrix providers (driver on real-valued coordinates + repository tests)
     return chk.finish()
